@@ -24,6 +24,35 @@ def argv():
     builtins._C15REC.append(["argv", list(sys.argv), []])
 VALUE = 42
 '''
+# objects for which `==` is useless: equal to anything / a comparison result without a truth value
+EQ_MOD = '''class _NoTruth:
+    def __bool__(self):
+        raise ValueError("The truth value of this object is ambiguous")
+    def __repr__(self):
+        return "<notruth>"
+class ArrayLike:
+    """numpy-array style: == gives an object that has no truth value"""
+    def __init__(self, n):
+        self.n = n
+    def __eq__(self, other):
+        return _NoTruth()
+    def __ne__(self, other):
+        return _NoTruth()
+    __hash__ = None
+    def __repr__(self):
+        return "arraylike(%d)" % self.n
+def arange(n):
+    return ArrayLike(n)
+class _Anything:
+    def __eq__(self, other):
+        return True
+    def __ne__(self, other):
+        return False
+    def __repr__(self):
+        return "<anything>"
+ANYTHING = _Anything()
+W = ArrayLike(3)
+'''
 MAIN_MOD = '''import builtins, sys
 builtins._C15REC.append(["argv", list(sys.argv), []])
 '''
@@ -37,7 +66,7 @@ GLOBALS = [[], [], [], ["--safe"], ["--safe"], ["--args=string"], ["--args", "st
            ["--args= Str "], ["-args=s"], ["--arg_mode=literal"], ["--safe", "-q"], ["-q", "--args=string"], ["--output=silent"],
            ["--repr", "--safe"], ["--args=auto", "--safe"], ["--safe", "--args=auto"], ["--args=bogus"], ["--args"],
            ["--np", "--safe"], ["--postmortem=no"], ["--safe=1"], ["--arguments=strings"]]
-ARGS = ["(1+2)", "[1,2]", "(1,2)", "1", "+", "2", "'x'", "abc", "a b", "", " ", "-x", "--k=v", "--key=1", "--", ".upper()",
+ARGS = ["unittest.mock.ANY", "c15eq.W", "c15eq.arange(3)", "c15eq.ANYTHING", "(1+2)", "[1,2]", "(1,2)", "1", "+", "2", "'x'", "abc", "a b", "", " ", "-x", "--k=v", "--key=1", "--", ".upper()",
         "if", "1/0", "sys", "(", ")", "== 1", "é", "v_=1", "[0]", "()", "(3)", ", 4", "-", "-5", "- 5", "?", "--foo", "1+2",
         "os.sep", "{'a': 1}", "and 1", "is None", "('a b')", "--key", "-k", "x"]
 
@@ -99,7 +128,7 @@ def _setup():
     if "dir" not in _ENV:
         d = tempfile.mkdtemp(prefix="verif-c15m-")
         atexit.register(shutil.rmtree, d, True)
-        for name, text in (("c15rec.py", REC_MOD), ("c15main.py", MAIN_MOD), ("c15script.py", MAIN_MOD)):
+        for name, text in (("c15rec.py", REC_MOD), ("c15main.py", MAIN_MOD), ("c15script.py", MAIN_MOD), ("c15eq.py", EQ_MOD)):
             with open(os.path.join(d, name), "w") as f:
                 f.write(text)
         sys.path.insert(0, d)
